@@ -211,13 +211,19 @@ def runWOps (fx : Fixes) (T : TokenizerM) : WorkerM → List WOp → Nat → Lis
       | some none => runWOps fx T w' ops (i + 1) acc
       | some (some s) => runWOps fx T w' ops (i + 1) (s!"W{i} {s}" :: acc)
 
+/-- `Tokenizer::new(dict)` followed by a HISTORY of option settings and then the final ones
+(`OPT <ign> <maxg> H…`): every setter overwrites its option, so only the final values count — except that
+`ignore_space(true)` is an error (which ends the chain) when `SPACE` is not defined, also inside the history. -/
+def mkTokenizerH (histIgn : Bool) (D : DictM) (ign : Bool) (maxg : Nat) : Option TokenizerM :=
+  if histIgn && (D.chars.cateId "SPACE").isNone then none else mkTokenizer D ign maxg
+
 /-- The model's observation for a `tok` case. -/
-def modelObs (fx : Fixes) (D : DictM) (dops : List DOp) (ign : Bool) (maxg : Nat) (wops : List WOp) :
-    String :=
+def modelObs (fx : Fixes) (D : DictM) (dops : List DOp) (ign : Bool) (maxg : Nat) (wops : List WOp)
+    (histIgn : Bool := false) : String :=
   match runDOps fx D dops 0 with
   | .error e => e
   | .ok D' =>
-    match mkTokenizer D' ign maxg with
+    match mkTokenizerH histIgn D' ign maxg with
     | none => "O err"
     | some T =>
       let parts := runWOps fx T WorkerM.fresh wops 0 []
@@ -230,12 +236,18 @@ structure Case where
   maxg : Nat
   wops : List WOp
   impl : List String
+  /-- the option history before the final settings contains `ignore_space(true)` -/
+  histIgn : Bool := false
 
 def parseCase (toks : List String) : Option Case :=
   match toks with
   | dname :: "DOPS" :: k :: rest => do
     let k ← natOf k
     let (dops, rest) ← parseDOps k rest
+    -- optional history token `H(i0|i1|m<n>)*` between the final options and `WOPS`
+    let (hist, rest) := match rest with
+      | "OPT" :: ign :: maxg :: h :: "WOPS" :: r => (h, "OPT" :: ign :: maxg :: "WOPS" :: r)
+      | r => ("", r)
     match rest with
     | "OPT" :: ign :: maxg :: "WOPS" :: k2 :: rest => do
       let ign ← natOf ign
@@ -243,7 +255,7 @@ def parseCase (toks : List String) : Option Case :=
       let k2 ← natOf k2
       let (wops, rest) ← parseWOps k2 rest
       match rest with
-      | "IMPL" :: impl => pure { dname, dops, ign := ign = 1, maxg, wops, impl }
+      | "IMPL" :: impl => pure { dname, dops, ign := ign = 1, maxg, wops, impl, histIgn := (hist.splitOn "i1").length > 1 }
       | _ => none
     | _ => none
   | _ => none
@@ -254,7 +266,7 @@ def handleTok (fx : Fixes) (dicts : Dicts) (toks : List String) : String :=
   | some c =>
     match dicts.lookup c.dname with
     | none => "nodict"
-    | some D => modelObs fx D c.dops c.ign c.maxg c.wops
+    | some D => modelObs fx D c.dops c.ign c.maxg c.wops c.histIgn
 
 end Vibrato.Driver.Tok
 
@@ -369,7 +381,7 @@ answers. Returns `C01=<0|1> C02=<0|1> C04=<0|1>` (`n/a` when no `Q` was evaluate
 def evalP (fx : Fixes) (D0 : DictM) (c : Case) : String :=
   match runDOps Fixes.all D0 c.dops 0, runDOps fx D0 c.dops 0 with
   | .ok _, .ok D =>
-    match mkTokenizer D c.ign c.maxg with
+    match mkTokenizerH c.histIgn D c.ign c.maxg with
     | none => "n/a"
     | some T =>
       let parts := splitParts c.impl
@@ -462,10 +474,10 @@ def evalP2 (D0 : DictM) (c : Case) : String :=
   let b (x : Bool) := if x then "1" else "0"
   -- reference dictionaries
   let DU := userOnly D0 c.dops
-  let TU := DU.bind fun D => mkTokenizer D c.ign c.maxg
-  let TE := DU.bind fun D => mkTokenizer (extendSys D) c.ign c.maxg
+  let TU := DU.bind fun D => mkTokenizerH c.histIgn D c.ign c.maxg
+  let TE := DU.bind fun D => mkTokenizerH c.histIgn (extendSys D) c.ign c.maxg
   let TM := (match runDOps Fixes.all D0 c.dops 0 with | .ok D => some D | _ => none).bind
-    fun D => mkTokenizer D c.ign c.maxg
+    fun D => mkTokenizerH c.histIgn D c.ign c.maxg
   let rec go : List WOp → Nat → List Nat → Bool → List Nat × List Nat →
       (Bool × Bool × Bool × Bool × List (List String)) → (Bool × Bool × Bool × Bool × List (List String))
     | [], _, _, _, _, acc => acc
@@ -622,7 +634,7 @@ def allExact (fx : Fixes) (T : TokenizerM) : WorkerM → List WOp → Bool
 def idx16Flag (fx : Fixes) (D : DictM) (c : Case) : String :=
   match runDOps fx D c.dops 0 with
   | .ok D' =>
-    match mkTokenizer D' c.ign c.maxg with
+    match mkTokenizerH c.histIgn D' c.ign c.maxg with
     | some T => if allExact fx T WorkerM.fresh c.wops then " IDX16=1" else " IDX16=0"
     | none => ""
   | _ => ""
@@ -638,6 +650,6 @@ def handleTokP (fx : Fixes) (dicts : Dicts) (toks : List String) : String :=
         | none => ""
         | some true => " MAPPERMODEL=1"
         | some false => " MAPPERMODEL=0"
-      modelObs fx D c.dops c.ign c.maxg c.wops ++ " P " ++ evalP fx D c ++ " " ++ evalP2 D c ++ mm ++ idx16Flag fx D c
+      modelObs fx D c.dops c.ign c.maxg c.wops c.histIgn ++ " P " ++ evalP fx D c ++ " " ++ evalP2 D c ++ mm ++ idx16Flag fx D c
 
 end Vibrato.Driver.Tok
